@@ -180,8 +180,8 @@ impl Scenario for Udp {
 
     fn budget(&self, tier: Tier) -> u64 {
         match tier {
-            Tier::Quick => 10_000,
-            Tier::Thorough => 800_000,
+            Tier::Quick => 60_000,
+            Tier::Thorough => 4_000_000,
         }
     }
 
